@@ -49,6 +49,9 @@ type vfStatsStep struct {
 	Rate uint32       `json:"rate"`
 	D    string       `json:"d"`
 	Pk   []vfStatsPkt `json:"pk"`
+	// Inw (ircp, interceptor level, directly after an orcp step): the packet is read while the transport-side writer of
+	// that orcp step is still inside Write (a slow transport, the reader running on another goroutine)
+	Inw bool `json:"inw"`
 }
 
 type vfStatsScript struct {
@@ -395,12 +398,31 @@ func vfStatsRunIcpt(t *testing.T, sc *vfStatsScript, out *vfWriter) {
 			return copy(b, nextRTCP), a, nil
 		}))
 	rtcpWritten := 0
+	var inRTCPWrite func()
 	rtcpWriter := ic.BindRTCPWriter(interceptor.RTCPWriterFunc(
 		func(pkts []rtcp.Packet, _ interceptor.Attributes) (int, error) {
 			rtcpWritten += len(pkts)
+			if f := inRTCPWrite; f != nil {
+				inRTCPWrite = nil
+				f()
+			}
 
 			return len(pkts), nil
 		}))
+	readRTCP := func(i int, st *vfStatsStep) {
+		raw, err := rtcp.Marshal(vfStatsPackets(t, st.Pk))
+		if err != nil {
+			t.Fatalf("VERIF-INFRA marshal rtcp: %v", err)
+		}
+		nextRTCP = raw
+		var attr interceptor.Attributes
+		if i%2 == 0 {
+			attr = interceptor.Attributes{}
+		}
+		if n, _, err := rtcpReader.Read(make([]byte, 4096), attr); err != nil || n != len(raw) {
+			t.Fatalf("VERIF-INFRA rtcp read: n=%d of %d err=%v", n, len(raw), err)
+		}
+	}
 
 	var nextRTP []byte
 	rtpWritten := 0
@@ -463,20 +485,19 @@ func vfStatsRunIcpt(t *testing.T, sc *vfStatsScript, out *vfWriter) {
 				t.Fatalf("VERIF-INFRA rtp write: err=%v", err)
 			}
 		case "ircp":
-			raw, err := rtcp.Marshal(vfStatsPackets(t, st.Pk))
-			if err != nil {
-				t.Fatalf("VERIF-INFRA marshal rtcp: %v", err)
+			if st.Inw && i > 0 && sc.Steps[i-1].A == "orcp" {
+				break // already read, from inside the previous step's transport write
 			}
-			nextRTCP = raw
-			var attr interceptor.Attributes
-			if i%2 == 0 {
-				attr = interceptor.Attributes{}
-			}
-			if n, _, err := rtcpReader.Read(make([]byte, 4096), attr); err != nil || n != len(raw) {
-				t.Fatalf("VERIF-INFRA rtcp read: n=%d of %d err=%v", n, len(raw), err)
-			}
+			readRTCP(i, st)
 		case "orcp":
 			pkts := vfStatsPackets(t, st.Pk)
+			if i+1 < len(sc.Steps) && sc.Steps[i+1].A == "ircp" && sc.Steps[i+1].Inw {
+				nx, ni := &sc.Steps[i+1], i+1
+				inRTCPWrite = func() {
+					clock = vfStatsAt(nx.Now)
+					readRTCP(ni, nx)
+				}
+			}
 			before := rtcpWritten
 			if _, err := rtcpWriter.Write(pkts, nil); err != nil || rtcpWritten != before+len(pkts) {
 				t.Fatalf("VERIF-INFRA rtcp write: err=%v", err)
